@@ -207,13 +207,13 @@ fn pipe_case(rt: &tokio::runtime::Runtime, dir: &Path, case: &Value, n: usize) -
 		for child in subtrees {
 			let cv = render(child);
 			match catch(|| rt.block_on(factory.operation_from_vpl(&cv))) {
-				Ok(Ok(cop)) => docs.push(crate::tj::project(cop.get_tilejson())),
+				Ok(Ok(cop)) => docs.push(catch(|| crate::tj::project(cop.get_tilejson())).unwrap_or(json!({"bounds":[],"center":[],"vals":[],"layers":[],"unbuildable":1}))),
 				_ => docs.push(json!({"bounds":[],"center":[],"vals":[],"layers":[],"unbuildable":1})),
 			}
 		}
 		let p = &op.get_parameters().bbox_pyramid;
 		let micro = |v: f64| (v * 1e6).round() as i64;
-		ev["tj"] = json!({"root": crate::tj::project(op.get_tilejson()), "kids": docs,
+		ev["tj"] = json!({"root": catch(|| crate::tj::project(op.get_tilejson())).unwrap_or(json!({"bounds":[],"center":[],"vals":[],"layers":[]})), "kids": docs,
 			"geo": p.get_geo_bbox().map(|b| vec![micro(b.0), micro(b.1), micro(b.2), micro(b.3)]).unwrap_or_default(),
 			"zmin": p.get_zoom_min().map(|z| z as i64).unwrap_or(-1), "zmax": p.get_zoom_max().map(|z| z as i64).unwrap_or(-1)});
 	}
